@@ -433,6 +433,24 @@ func evalC02(op string, args []string) string {
 		p.Encode()
 		p.MarshalBinary()
 		return "ok parse=ok"
+	case "tpraw":
+		// Tunnel-Password / User-Password de-obfuscation on a crafted value, directly and through the
+		// generated rfc2868 getter (tag octet 0 in front)
+		a, sec, ra := unhx(args[0]), unhx(args[1]), unhx(args[2])
+		radius.TunnelPassword(a, sec, ra)
+		radius.UserPassword(a, sec, ra)
+		if e := lookupHelper("layeh.com/radius/rfc2868.TunnelPassword"); e != nil && len(ra) == 16 && len(a) < 250 {
+			p := &radius.Packet{Code: 2, Secret: sec}
+			copy(p.Authenticator[:], ra)
+			p.Add(radius.Type(e.Typ), append([]byte{0}, a...))
+			p.Add(radius.Type(e.Typ), append([]byte{}, a...))
+			for _, n := range readerOrder {
+				if f, ok := helperReaders(e)[n]; ok {
+					f(p, p)
+				}
+			}
+		}
+		return "ok"
 	case "getter":
 		name := strings.SplitN(args[0], "|", 2)[0]
 		e := lookupHelper(name)
@@ -483,6 +501,17 @@ func genC02(g *Gen, tier string, emit func(op string, args ...string)) {
 			b = g.wireImage()
 		}
 		emit("datagram", hx(b), hx(g.RandBytes(g.Pick(0, 1, 8))), hx(g.Bytes(g.Pick(0, 16, 19, 20, 40))))
+	}
+	// de-obfuscation with an exactly chosen decrypted length octet (needs the key stream, so it is crafted here)
+	for k := 1; k <= 15; k++ {
+		for _, want := range []int{16*k - 1, 16 * k, 16*k + 1, 255} {
+			sec, ra := g.RandBytes(g.Pick(1, 8)), g.RandBytes(16)
+			a := g.RandBytes(2 + 16*k)
+			a[0] |= 0x80
+			b1 := md5sum(sec, ra, a[:2])
+			a[2] = byte(want) ^ b1[0]
+			emit("tpraw", hx(a), hx(sec), hx(ra))
+		}
 	}
 	// every getter on packets whose attributes are adversarial for the attribute's declared type
 	for _, e := range registry {
